@@ -1,0 +1,11 @@
+//go:build verif
+
+// Verification hook (build tag `verif` only): lets the C18 correspondence harness run one expiration
+// pass of an ExpireWatcher on demand instead of waiting for its two-minute ticker.  No behaviour change;
+// not compiled in production builds.
+package lunarcontext
+
+// VerifSweep runs what the watcher's goroutine does on every tick.
+func (ew *ExpireWatcher[T]) VerifSweep() {
+	ew.removeExpiredKeys()
+}
